@@ -739,7 +739,7 @@ fn stream_soup(tier: Tier, rng: &mut SplitMix64, img: &mut Img, out: &mut dyn Wr
 
 fn stream_witnesses(rng: &mut SplitMix64, img: &mut Img, out: &mut dyn Write) {
     let next = sfn_slot(b"NEXT       ", 0x20);
-    // F17: 20-slot run 0x54, 19, …, 1 → 260 units
+    // former F17 (fixed in 6c58f9d; oracle `C17 name-too-long` fires if it returns): 20-slot run 0x54, 19, …, 1 → 260 units → no long name
     {
         let name = *b"LONG260 TXT";
         let chk = sfn_chk(&name);
@@ -771,7 +771,7 @@ fn stream_witnesses(rng: &mut SplitMix64, img: &mut Img, out: &mut dyn Write) {
             emit_both(out, img, &slots);
         }
     }
-    // F18: abandoned longer run directly followed by a new 0x40 slot
+    // former F18 (fixed in 11043bc; oracle `C17 foreign-or-partial-name` fires if it returns): abandoned longer run directly followed by a new 0x40 slot
     {
         let name = *b"LEAK    TXT";
         let chk = sfn_chk(&name);
@@ -797,7 +797,7 @@ fn stream_witnesses(rng: &mut SplitMix64, img: &mut Img, out: &mut dyn Write) {
             vec![lfn_slot(0x42, chk, &[0x58; 13]), lfn_slot(0x55, chk, &[0x5A; 13]), lfn_slot(0x41, chk, &[0x61; 13]), sfn_slot(&name, 0x20), next];
         emit_both(out, img, &slots);
     }
-    // F12: trailing U+FFFF
+    // F12 (open, known finding): trailing U+FFFF
     {
         let name = *b"FFFF    TXT";
         let chk = sfn_chk(&name);
